@@ -51,7 +51,8 @@ def q_text(q, style=0, andtok="&&", bare=False):
             inner = "(" + inner + ")"
         return "~" + inner
     if op == "desc":
-        return "[" + q_text(q["r"], style, andtok, bare) + "]"
+        inner = q_text(q["r"], style, andtok, bare)       # "[[" and "]]" are (legacy) tokens of their own
+        return "[" + (" " if inner[0] == "[" else "") + inner + (" " if inner[-1] == "]" else "") + "]"
     if op == "xany":
         return "{" + q_text(q["r"], style, andtok, bare) + "}"
     if op == "xonly":
